@@ -7,7 +7,8 @@ CONSTANTS
   Handles <- QB_Handles
   DepSets <- QB_DepSets
   HandlerSeqs <- QB_HSeqs
-  UpRegs <- QB_UpRegs
+  UpProgs <- QB_UpProgs
+  CRProg <- QB_CR
   QuitOn = FALSE
   QuitDeferred = FALSE
   DefCap = 0
@@ -23,4 +24,5 @@ PROPERTY ExactlyOnce
 PROPERTY FiredForever
 PROPERTY NeverEarly
 PROPERTY LifeLogged
+PROPERTY CROnce
 CHECK_DEADLOCK FALSE
